@@ -297,7 +297,14 @@ func (n *Node) DataType() *ua.ExpandedNodeID {
 		}
 		return ua.NewTwoByteExpandedNodeID(0)
 	}
-	return v.Value.Value().(*ua.ExpandedNodeID)
+	// the attribute can be written by clients with any value: do not trust its type
+	switch dt := v.Value.Value().(type) {
+	case *ua.ExpandedNodeID:
+		return dt
+	case *ua.NodeID:
+		return ua.NewExpandedNodeID(dt, "", 0)
+	}
+	return ua.NewTwoByteExpandedNodeID(0)
 }
 
 func (n *Node) SetNodeClass(nc ua.NodeClass) {
